@@ -153,7 +153,7 @@ REGISTRY = {
     },
     "C14": {
         "rules": [
-            bp.rule_bp_exponent, bp.rule_accumulator_units, bp.rule_bp_normalizers, bp.rule_factor_orientation, bp.rule_damping_order, bp.rule_dual_refresh, bp.rule_bp_cache_invalidate, bp.rule_pair_normaliser_phase, bp.rule_excluded_tensors_accounted, bp.rule_gloop_singletons, bp.rule_query_selects_output,
+            bp.rule_bp_exponent, bp.rule_accumulator_units, bp.rule_bp_normalizers, bp.rule_factor_orientation, bp.rule_damping_order, bp.rule_dual_refresh, bp.rule_bp_cache_invalidate, bp.rule_pair_normaliser_phase, bp.rule_excluded_tensors_accounted, bp.rule_gloop_singletons, bp.rule_query_selects_output, bp.rule_converged_by_tolerance,
             P(registries.rule_mode_total, specs=[
                 ("quimb.tensor.belief_propagation.bp_common", "BeliefPropagationCommon.normalize.setter", "normalize"),
                 ("quimb.tensor.belief_propagation.bp_common", "BeliefPropagationCommon.distance.setter", "distance"),
@@ -519,7 +519,7 @@ _ALSO4 = {
     "C11": " A single-site term keeps the side it was assigned to when its bond is flipped; cyclic imaginary-time sweeps renormalise with the full norm.",
     "C12": " Environments stored from a working network that is contracted further are private copies; a copy used together with `gauges=G` is taken before G is re-inserted; norms are stripped from the contracted boundary only.",
     "C13": " singular_values (and the Schmidt values / entropies built on it) read the stored exponent; a pair of sites is sorted together with its operator; no exit returns evaluated values before the exponent is applied; a sorted copy of the requested sites does not order the axes of a dense result.",
-    "C14": " The output axis of a marginal contraction is selected by the queried index.",
+    "C14": " The output axis of a marginal contraction is selected by the queried index; the driver declares convergence only from a value that depends on a tolerance parameter.",
     "C15": " The dims handed to permute() describe the current layout and are not computed from the inverse permutation passed as perm. The sparse partial trace recursion reaches its base case with the reduced dims; (known finding) partial_trace orders the kept subsystems ascending whereas pkron honours the order given.",
     "C17": " The window driver hands k to both routes.",
     "C19": " The wrap-around bond of a cyclic chain is embedded at (L-1, 0); same-site operator products keep the order of the term.",
